@@ -190,7 +190,10 @@ def checkStmt : Nat → Ctx → Stmt → R Ctx
         | some lb => if c.loops.contains (some lb) then pure c else throw (.badContinue l)
     | .filter _ pat action => do
       -- a filter is compiled in a scope of its own: not a function (no `return`), no enclosing loop
-      let inner : Ctx := { scopes := [] :: c.scopes, loops := [], inFn := false }
+      -- a filter runs once per packet, not when the function it is written in runs: what a
+      -- reference to a local of that function means is not documented (`unc`; the compiler rejects it)
+      let locals : List String := if c.inFn then (c.scopes.dropLast).flatten else []
+      let inner : Ctx := { scopes := [] :: c.scopes, loops := [], inFn := false, pendingLet := locals }
       match pat with
       | .expr e => checkE fuel inner e
       | _ => pure ()
